@@ -14,9 +14,19 @@ def src(rel):
     except OSError:
         return ""
 
+KNOWN = {}   # constant name -> value, for expressions that mention constants extracted before
+
 def arith(expr):
-    """value of a literal arithmetic expression (hex/decimal literals, + - * and parentheses)"""
-    if expr is None or not re.fullmatch(r"[0-9a-fA-FxX+\-* ()_]+", expr):
+    """value of an arithmetic expression over literals (hex/decimal), + - * and parentheses, and the names of
+    constants extracted before (`aead_2022::SERVER_STREAM_TIMESTAMP_MAX_DIFF + 1`, `2 * MAX_DIFF + 1`)"""
+    if expr is None:
+        return None
+    def sub(m):
+        name = m.group(0).split("::")[-1]
+        return str(KNOWN[name]) if name in KNOWN else m.group(0)
+    expr = re.sub(r"(?:[A-Za-z_][A-Za-z0-9_]*::)*[A-Z][A-Z0-9_]{2,}", sub, expr)
+    expr = re.sub(r"(?<=\d)(?:u8|u16|u32|u64|usize|i32|i64)\b", "", expr)
+    if not re.fullmatch(r"[0-9a-fA-FxX+\-* ()_]+", expr):
         return None
     try:
         return int(eval(expr.replace("_", ""), {"__builtins__": {}}))
@@ -46,12 +56,20 @@ def main():
     a22 = src("octo-squirrel/src/codec/shadowsocks/aead_2022.rs")
     e = const_expr(a22, "SERVER_STREAM_TIMESTAMP_MAX_DIFF")
     put("ssMaxTimeDiff", int(e) if e and e.isdigit() else None, 30)
+    KNOWN["SERVER_STREAM_TIMESTAMP_MAX_DIFF"] = vals["ssMaxTimeDiff"]
     e = const_expr(a22, "MAX_PADDING_LENGTH")
     put("ssMaxPadding", int(e) if e and e.isdigit() else None, 900)
     tcp = src("octo-squirrel/src/codec/shadowsocks/tcp.rs")
     m = re.search(r"with_expiry_duration_and_capacity\(\s*Duration::from_secs\(([^)]*)\)\s*,\s*(\d+)\s*\)", tcp)
-    put("ssSaltTtl", arith(m.group(1)) if m else None, 61)
-    put("ssSaltCapacity", int(m.group(2)) if m else None, 102400)
+    ttl_expr, cap = (m.group(1), m.group(2)) if m else (None, None)
+    if not m:
+        # the duration bound to a local first: `let expiry = Duration::from_secs(EXPR); … with_expiry_duration_and_capacity(expiry, N)`
+        m2 = re.search(r"with_expiry_duration_and_capacity\(\s*([a-z_][a-z0-9_]*)\s*,\s*(\d+)\s*\)", tcp)
+        if m2:
+            m3 = re.search(r"let\s+%s\s*(?::[^=]+)?=\s*Duration::from_secs\(([^;]*)\)\s*;" % re.escape(m2.group(1)), tcp)
+            ttl_expr, cap = (m3.group(1) if m3 else None), m2.group(2)
+    put("ssSaltTtl", arith(ttl_expr), 61)
+    put("ssSaltCapacity", int(cap) if cap else None, 102400)
     aid = src("octo-squirrel/src/protocol/vmess/aead/auth_id.rs")
     m = re.search(r"\.abs\(\)\s*<=\s*(\d+)", aid)
     put("vmessAuthWindow", int(m.group(1)) if m else None, 120)
